@@ -480,8 +480,88 @@ def rule_lt(repo, tier):
     return res
 
 
-def rules(repo, tier):
-    return [rule_vt(repo, tier), rule_sb(repo, tier), rule_lt(repo, tier), rule_pure(repo, tier), rule_dep(repo, tier)]
+@guarded
+def rule_saved(repo, tier):
+    """The left-perturbation Jacobian of the action, d (Exp(e) X . p) / d e at e = 0, is a function of the TRANSFORMED point X . p.  In every
+    Act / Act4 Function the argument of the *_Act*_Jacobian helper must therefore be the forward's output: the saved slot that setup_context
+    filled from `output`, or a recomputation <Class>.forward(saved inputs in order).  Roles are traced through save_for_backward /
+    saved_tensors by position, not by variable name."""
+    res = RuleResult('C04.SAVED', 'Act / Act4 backward: the action Jacobian w.r.t. the group element is evaluated at the transformed point (the forward '
+                     'output), traced by position through save_for_backward / saved_tensors', floor=8)
+    m = repo.module(OP)
+    for ci in m.classes.values():
+        bw, sc, fw = ci.methods.get('backward'), ci.methods.get('setup_context'), ci.methods.get('forward')
+        if bw is None or sc is None or fw is None:
+            continue
+        jac = [c for c in paths.calls_in(bw.node) if isinstance(c.func, ast.Name) and c.func.id.endswith('_Jacobian') and '_Act' in c.func.id and c.args]
+        if not jac:
+            continue
+        # roles saved by setup_context
+        scp = sc.pos_params
+        if len(scp) < 3:
+            raise AnalysisError('C04.SAVED: %s.setup_context has an unexpected signature' % ci.name)
+        in_name, out_name = scp[1], scp[2]
+        role = {out_name: 'out'}
+        for n in ast.walk(sc.node):
+            if isinstance(n, ast.Assign):
+                if isinstance(n.value, ast.Name) and n.value.id == in_name:
+                    for t in n.targets:
+                        if isinstance(t, ast.Tuple):
+                            for i, x in enumerate(t.elts):
+                                if isinstance(x, ast.Name):
+                                    role[x.id] = 'in%d' % i
+                elif isinstance(n.value, ast.Name) and n.value.id in role:
+                    for t in n.targets:
+                        if isinstance(t, ast.Name):
+                            role[t.id] = role[n.value.id]
+                elif isinstance(n.value, ast.Subscript) and isinstance(n.value.value, ast.Name) and n.value.value.id == in_name and \
+                        isinstance(n.value.slice, ast.Constant):
+                    for t in n.targets:
+                        if isinstance(t, ast.Name):
+                            role[t.id] = 'in%d' % n.value.slice.value
+        saves = [c for c in paths.calls_in(sc.node) if isinstance(c.func, ast.Attribute) and c.func.attr == 'save_for_backward']
+        if len(saves) != 1:
+            raise AnalysisError('C04.SAVED: %s.setup_context has %d save_for_backward calls' % (ci.name, len(saves)))
+        slots = [role.get(a.id) if isinstance(a, ast.Name) else None for a in saves[0].args]
+        # roles in backward
+        brole = {}
+        for n in ast.walk(bw.node):
+            if isinstance(n, ast.Assign) and isinstance(n.value, ast.Attribute) and n.value.attr == 'saved_tensors':
+                for t in n.targets:
+                    if isinstance(t, ast.Tuple):
+                        for i, x in enumerate(t.elts):
+                            if isinstance(x, ast.Name) and i < len(slots):
+                                brole[x.id] = slots[i]
+        changed = True
+        while changed:
+            changed = False
+            for n in ast.walk(bw.node):
+                if isinstance(n, ast.Assign) and len(n.targets) == 1 and isinstance(n.targets[0], ast.Name) and n.targets[0].id not in brole:
+                    v = n.value
+                    r = None
+                    if isinstance(v, ast.Name) and v.id in brole:
+                        r = brole[v.id]
+                    elif isinstance(v, ast.Call) and (dotted(v.func) or '') in (ci.name + '.forward', ci.name + '.apply') and \
+                            [brole.get(a.id) if isinstance(a, ast.Name) else None for a in v.args] == ['in%d' % i for i in range(len(v.args))] and v.args:
+                        r = 'out'
+                    if r is not None:
+                        brole[n.targets[0].id] = r
+                        changed = True
+        for c in jac:
+            a0 = c.args[0]
+            r = brole.get(a0.id) if isinstance(a0, ast.Name) else None
+            if r is None and isinstance(a0, ast.Call) and (dotted(a0.func) or '') in (ci.name + '.forward', ci.name + '.apply'):
+                r = 'out' if [brole.get(a.id) if isinstance(a, ast.Name) else None for a in a0.args] == ['in%d' % i for i in range(len(a0.args))] else None
+            res.inst({'class': ci.fq, 'jacobian': src(c)[:50], 'saved slots': slots, 'argument is': r}, ci.fq)
+            if r != 'out':
+                res.add(Finding('C04.SAVED', bw, '`%s` evaluates the action Jacobian at %s; it is a function of the transformed point, the forward output '
+                                '(setup_context saves %s)' % (src(c)[:50], {'in0': 'the group element', 'in1': 'the UNtransformed input point'}.get(r, 'a value of unknown origin'),
+                                                              slots), node=c))
+    return res
+
+
+def _rules_core(repo, tier):
+    return [rule_vt(repo, tier), rule_sb(repo, tier), rule_lt(repo, tier), rule_pure(repo, tier), rule_dep(repo, tier), rule_saved(repo, tier)]
 
 
 @guarded
@@ -598,3 +678,11 @@ def rule_dep(repo, tier):
                 res.add(Finding('C04.DEP', fw, '%s_Act4.forward does not scale the translation by the homogeneous coordinate of the point' % fam,
                                 construct='forward t*w'))
     return res
+
+
+def rules(repo, tier):
+    from ..memo import rule_memo
+    return list(_rules_core(repo, tier)) + [rule_memo(repo, 'C04.MEMO', 'history independence: nothing computed from the contents of a tensor argument is kept '
+                                                      'under the identity, address or version of that tensor, in module-level storage, or published from a generator '
+                                                      'before it is complete - a later call with the same object and other contents must not be answered from it',
+                                                      ['pypose.lietensor.lietensor', 'pypose.lietensor.operation', 'pypose.lietensor.basics', 'pypose.lietensor.utils'], floor=3)]
